@@ -261,6 +261,72 @@ func ruleL3(p *Prog, r *Report) {
 		n++
 		r.Decide(ok, R, "query:"+q, p.Pos(f.Pos()), "returns head."+g+"()", "raw-bytes query no longer returns head."+g+"()")
 	}
+	// truthfulness of the has-pointers source: every HasPointer/hasPointer of a slab or element type looks at
+	// every reference-bearing field (the same fields ChildStorables must enumerate), reference kinds answer true
+	for _, nt := range p.rootNamedTypes() {
+		nm := nt.Obj().Name()
+		var f *ssa.Function
+		for _, m := range []string{"HasPointer", "hasPointer"} {
+			if g := p.Method(nm, m); g != nil && recvNamed(g) == nt {
+				f = g
+			}
+		}
+		if f == nil || nm == "head" {
+			continue
+		}
+		n++
+		cons := "pointer-source:" + nm
+		allTrue := true
+		for _, ret := range returnsOf(f) {
+			if c, ok := canon(ret.Results[0]).(*ssa.Const); !ok || c.Value == nil || c.Value.String() != "true" {
+				allTrue = false
+			}
+		}
+		if nm == "SlabIDStorable" || nm == "externalCollisionGroup" {
+			r.Decide(allTrue, R, cons, p.Pos(f.Pos()), "a reference kind always reports has-pointer", "a reference to another slab no longer reports has-pointer: the header flag would claim the slab holds no references")
+			continue
+		}
+		st, ok := nt.Underlying().(*types.Struct)
+		if !ok {
+			continue
+		}
+		read := map[string]bool{}
+		for g := range p.ReachFine(f) {
+			eachInstr(g, func(in ssa.Instruction) {
+				switch x := in.(type) {
+				case *ssa.FieldAddr:
+					if o, fl := structFieldName(x.X.Type(), x.Field); o == nt {
+						read[fl] = true
+					}
+				case *ssa.Field:
+					if o, fl := structFieldName(x.X.Type(), x.Field); o == nt {
+						read[fl] = true
+					}
+				}
+			})
+		}
+		var missing []string
+		for i := 0; i < st.NumFields(); i++ {
+			fl := st.Field(i)
+			if !refBearing(fl.Type(), 0) || fl.Name() == "next" || fl.Name() == "header" {
+				continue
+			}
+			if !read[fl.Name()] {
+				missing = append(missing, fl.Name())
+			}
+		}
+		r.Decide(len(missing) == 0 && !allTrue || len(missing) == 0, R, cons, p.Pos(f.Pos()), "looks at every field that can hold a reference", "has-pointer computation ignores field(s) "+strings.Join(missing, ",")+" that can hold references to other slabs")
+	}
+	if hp := p.PkgFunc("hasPointer"); hp != nil {
+		n++
+		ok := false
+		eachInstr(hp, func(in ssa.Instruction) {
+			if c, isC := in.(ssa.CallInstruction); isC && c.Common().IsInvoke() && c.Common().Method.Name() == "HasPointer" && typeName(c.Common().Value.Type()) == "ContainerStorable" {
+				ok = true
+			}
+		})
+		r.Decide(ok, R, "pointer-source:hasPointer()", p.Pos(hp.Pos()), "delegates to ContainerStorable.HasPointer (inlined containers, wrappers, slab ids)", "hasPointer no longer asks container/wrapper storables whether they hold references")
+	}
 	r.Floor(R, "flag obligations", 20, n)
 }
 
